@@ -2,6 +2,8 @@
 
 package redis
 
+import "github.com/acquirecloud/golibs/kvs"
+
 // Contracts for the deductive verifier in /verif (gocv). Comment-only file,
 // compiled only under the `verif` build tag.
 //
@@ -16,18 +18,61 @@ package redis
 // at least a millisecond (a non-positive TTL would make go-redis send none) - and MSET, which carries no TTLs, is
 // never used in a call that encoded an expiring record.
 
-// the codec is trusted (protobuf); encoding for a write demands a version issued during the calling method
-//@ assumed func rec2db(r *kvs.Record) []byte
+// The codec.  The protobuf wire format is trusted (proto.Marshal / proto.Unmarshal: assumed contracts over the "content
+// of an encoded byte string" functions pbKey/pbVer/pbVLen/pbVByte/pbHasExp/pbExp, /verif/contracts/stdlib.spec); the
+// library's own half - Record2protoRecord, ProtoRecord2Record, rec2db, db2rec - is verified: every field of the record
+// reaches the bytes and comes back out of them ("Get returns the last written key, value, version and expiry").
+// encoding for a write demands a version issued during the calling method
+//@ func Record2protoRecord(r *kvs.Record) *golibskvspb.Record
+//@   props C03 C06
+//@   requires r != nil
+//@   ensures r0 != nil && fresh(r0) && r0.Key == r.Key && r0.Value == r.Value && r0.Version == r.Version
+//@   ensures (r0.ExpiresAt != nil) == (r.ExpiresAt != nil)
+//@   ensures r.ExpiresAt != nil ==> sameInstant(tsTime(r0.ExpiresAt), *r.ExpiresAt)
+//@ func ProtoRecord2Record(r *golibskvspb.Record) kvs.Record
+//@   props C03 C06
+//@   ensures r == nil ==> r0.Key == ""
+//@   ensures r == nil ==> r0.Version == ""
+//@   ensures r == nil ==> r0.Value == nil
+//@   ensures r == nil ==> r0.ExpiresAt == nil
+//@   ensures r != nil ==> r0.Key == r.Key && r0.Value == r.Value && r0.Version == r.Version
+//@   ensures r != nil ==> (r0.ExpiresAt != nil) == (r.ExpiresAt != nil)
+//@   ensures r != nil && r.ExpiresAt != nil ==> fresh(r0.ExpiresAt) && sameInstant(*r0.ExpiresAt, tsTime(r.ExpiresAt))
+// holdsRec: the byte string holds exactly this record
+//@ pred holdsRec(storage ref, key string, ver string, val []byte, eat *time.Time) = pbKey(storage) == key && pbVer(storage) == ver && pbVLen(storage) == len(val) && forall(i, 0, len(val), pbVByte(storage, i) == val[i]) && pbHasExp(storage) == (eat != nil) && (eat != nil ==> sameInstant(pbExp(storage), *eat))
+//@ func rec2db(r *kvs.Record) []byte
+//@   props C02 C03 C06
+//@   maypanic
 //@   requires r != nil
 //@   requires [C02] freshversion: !in(r.Version, atEntry(issued))
 // [C06] what the TTL of the write command has to match (see go-redis in /verif/contracts/stdlib.spec)
 //@   modifies encHas, encAt, encExpiring
+//@   ghostexit encHas := r.ExpiresAt != nil
+//@   ghostexit encAt := ite(r.ExpiresAt != nil, *r.ExpiresAt, encAt)
+//@   ghostexit encExpiring := encExpiring + ite(r.ExpiresAt != nil, 1, 0)
 //@   ensures encHas == (r.ExpiresAt != nil) && (r.ExpiresAt != nil ==> encAt == *r.ExpiresAt)
 //@   ensures encExpiring == old(encExpiring) + ite(r.ExpiresAt != nil, 1, 0)
-// decoding: the version of the decoded record comes out of the bytes decoded (verSource)
-//@ spec verSource(v string) ref = uninterpreted
-//@ assumed func db2rec(buf []byte) kvs.Record
-//@   ensures verSource(r0.Version) == arr(buf)
+//@   ensures [C03] codec: fresh(r0) && off(r0) == 0 && holdsRec(arr(r0), r.Key, r.Version, r.Value, r.ExpiresAt)
+// decoding: the version of the decoded record comes out of the bytes decoded: decodedFor(v, k) - "version v was decoded
+// from a value read for the redis key k" - is a relation that only proto.Unmarshal establishes (a relation, not a function
+// of v: the same version may well be read twice)
+//@ func db2rec(buf []byte) kvs.Record
+//@   props C02 C03 C06 C07
+//@   maypanic
+//@   ensures decodedFor(r0.Version, readKey(arr(buf)))
+//@   ensures [C03] codec: off(buf) == 0 ==> holdsRec(arr(buf), r0.Key, r0.Version, r0.Value, r0.ExpiresAt)
+// [C03]/[C06] round trip of the codec, over the two contracts above: what was encoded for a write is what a read decodes -
+// key, version, value bytes, and the expiry as an instant
+//@ lemma func lemmaRecordRoundTrip(r *kvs.Record) kvs.Record
+//@   props C03 C06
+//@   maypanic
+//@   requires r != nil && !in(r.Version, issued)
+//@   modifies encHas, encAt, encExpiring
+//@   ensures r0.Key == r.Key && r0.Version == r.Version && len(r0.Value) == len(r.Value) && forall(i, 0, len(r.Value), r0.Value[i] == r.Value[i])
+//@   ensures (r0.ExpiresAt != nil) == (r.ExpiresAt != nil)
+//@   ensures r.ExpiresAt != nil ==> sameInstant(*r0.ExpiresAt, *r.ExpiresAt)
+func lemmaRecordRoundTrip(r *kvs.Record) kvs.Record { return db2rec(rec2db(r)) }
+
 //@ spec rkeyOf(key string) string = uninterpreted
 //@ assumed func rKey(key string) string
 //@   ensures r0 == rkeyOf(key)
@@ -62,7 +107,7 @@ package redis
 // [C03] "Create fails with ErrExist and reports the stored version": the stored record is looked up, and a version
 // reported with ErrExist was decoded from a value read for this record's key
 //@   ensures [C03] existing: r1 == errors.ErrExist ==> redisGets > old(redisGets)
-//@   ensures [C03] existing: r1 == errors.ErrExist && r0 != "" ==> readKey(verSource(r0)) == rkeyOf(record.Key)
+//@   ensures [C03] existing: r1 == errors.ErrExist && r0 != "" ==> decodedFor(r0, rkeyOf(record.Key))
 
 //@ func (c *client) Put(ctx context.Context, record kvs.Record) (kvs.Record, error)
 //@   props C02 C03 C06
@@ -93,7 +138,7 @@ package redis
 //@   modifies everything
 // [C02] single CAS winner, the client's half: the body succeeds (and writes) only if the version the caller expects
 // is the version decoded from a value it read through the watching transaction for this very key
-//@   ensures [C02] cas: r0 == nil ==> readKey(verSource(old(record.Version))) == *key
+//@   ensures [C02] cas: r0 == nil ==> decodedFor(old(record.Version), *key)
 
 // [C03] "Get returns the last written key, value, version": what Get hands out was decoded from a value read for the
 // prefixed key, under the caller's key; an absent key is ErrNotExist; one GET per call
@@ -108,7 +153,7 @@ package redis
 //@   ghostexit lastGotVer := r0.Version
 //@   ghostexit lastGotKey := key
 //@   ensures redisGets == old(redisGets) + 1
-//@   ensures r1 == nil ==> r0.Key == key && readKey(verSource(r0.Version)) == rkeyOf(key)
+//@   ensures r1 == nil ==> r0.Key == key && decodedFor(r0.Version, rkeyOf(key))
 //@   ensures r1 != nil ==> r1 == errors.ErrNotExist || !isClass(r1)
 //@   ensures lastGotErr == r1 && lastGotVer == r0.Version && lastGotKey == key
 
